@@ -2,6 +2,7 @@ package harness
 
 import (
 	"crypto/sha256"
+	"runtime"
 	"bytes"
 	"encoding/hex"
 	"fmt"
@@ -53,6 +54,10 @@ func TestFSDriverChild(t *testing.T) {
 	if err != nil {
 		t.Fatal(err)
 	}
+	// every storage call of the script is made by one OS thread: strace orders the events of one
+	// thread exactly, but not those of different threads (a goroutine that changes threads after a
+	// slow fsync made marks and writes appear out of order, see DESIGN.md section 11)
+	runtime.LockOSThread()
 	var lg raft.Log
 	var st raft.StateStorage
 	var sn raft.SnapshotStorage
